@@ -264,6 +264,7 @@ var scenarioTable = map[string]func() Scenario{
 	"S-leased": scLeased,
 	"S-life":   scLife,
 	"S-meter":  scMeter,
+	"S-cert":   scCert(certSerials),
 	"S-collide": scCollide,
 	"S-grid":   scGrid,
 }
